@@ -13,6 +13,29 @@ GENERIC = ("; on every library call: plain-argument digests before/after, read-o
            "call history (sampled cases re-run in reverse order by fresh processes must reproduce every recorded value)")
 
 
+EXTRA = {
+    "C01": "repeat calls with the same ndarray index objects; 9-13 subsystems; square operators between two factorisations; sparse flags",
+    "C02": "narrow integer types, operands of magnitude 1e-16..1e8 against their natural magnitude, 9-13 subsystems, one cvxpy Variable under several factorisations",
+    "C03": "single-number dim forms, rectangular cvxpy Variables, repeat calls, 9-13 subsystems",
+    "C04": "designed Choi spectra around the documented cut-off, operator magnitudes, repeated operators, kraus_to_choi(sys=1), non-square Choi matrices with dims omitted",
+    "C05": "nested CP list forms, near-Hermitian operators, classical channels, repeated operators, magnitudes 1e-12..1e6",
+    "C06": "documented tolerance rule of is_trace_preserving / is_unital, direct-form parameter rejections, non-Hermitian operands, fresh-result history monitor",
+    "C07": "predicate-scaling relation, every order of the NPA levels on one object (tilted CHSH), fractional / mixed predicates",
+    "C08": "classical value of two repetitions against the explicit product game, repeated predicate columns, different outcome labels per party, tol argument",
+    "C09": "explicit keep-and-prepare cloning strategy, zero-prior insertion and listing-order invariance",
+    "C10": "row / mixed vector forms, repeated states, exact-zero priors, prior omitted, overlapping pairs at arbitrary list positions",
+    "C11": "density-matrix forms, mixed-pair overlap closed form, library PBR constructor against its definition, prior omitted",
+    "C12": "orthogonal product states in rotated local bases as a known-value anchor at every level, dimension argument forms",
+    "C13": "graded nearly-equal pairs with a condition-aware Bures tolerance, degenerate commuting pairs, one array object as both arguments, mixed dtypes",
+    "C14": "product-test classifier that replays the library's splits (known finding keyed by mechanism)",
+    "C15": "weakly entangled states, rank-four two-qutrit mixtures, ppt flag, omitted / single-number dimension forms; known findings keyed by call class",
+    "C16": "documented allclose tolerance rule at scales 1e-4..1e4, non-adjacent violating pairs, designed spectra for the norms, unequal-length majorisation",
+    "C17": "fresh-result history monitor on every constructor",
+    "C18": "abandoned / interleaved enumerations, non-integer, negative and shuffled labels",
+    "C19": "seed 0 and small seeds, mixed-dtype measured states, row-vector kets, conditioning-aware POVM tolerance",
+    "C20": "measure-and-prepare pairs, transpose and affine unital maps, maps that do not preserve Hermiticity, complex homogeneity, unequal dimensions for the channel fidelity of separability",
+}
+
 CHECKS = {
     # id: (technique, level text, level note, design ref)
 }
@@ -54,7 +77,7 @@ def main():
                 "design_ref": f"DESIGN.md section 4, {pid}",
             },
             "level_note": "; ".join(getattr(mod, "ASSUMPTIONS", [])) or "see DESIGN.md",
-            "technique": "runtime monitoring: " + TECH.get(pid, "reference-model and contract monitors over generated workloads") + GENERIC,
+            "technique": "runtime monitoring: " + TECH.get(pid, "reference-model and contract monitors over generated workloads") + "; widened by the seeded-change rounds: " + EXTRA.get(pid, "-") + GENERIC,
         })
     not_app = []
     for i in range(1, 21):
